@@ -35,6 +35,9 @@ def mp():
 # contracts whose kernels are applied to *named* view components (fresh variables with defining hypotheses) instead of
 # compound fractions: keeps the boost matrices small (DESIGN 2.1, kernel contracts at parameter level)
 ABSTRACT_VIEW_OPS = {"boost_beta3", "boost_p4"}
+# operations whose contract is split by the sign of a stored time coordinate (so that a failure for negative time is a
+# separately named obligation)
+T_SIGN_SPLIT_OPS = {"Et", "to_beta3"}
 
 
 # ------------------------------------------------------------------------------------------- obligations
@@ -127,10 +130,12 @@ class VariantJob:
         coords = []
         ti = 0
         for i, v in enumerate(self.vs):
-            tc = "nonneg"
+            tc, tt = "nonneg", None
             if len(v) >= 3 and v[2] is TemporalTau:
                 tc = tau_cases[ti]; ti += 1
-            coords.append(mk_operand(str(i + 1), v, tau_case=tc))
+            elif len(v) >= 3 and v[2] is TemporalT and self.modname in T_SIGN_SPLIT_OPS:
+                tt = tau_cases[ti]; ti += 1
+            coords.append(mk_operand(str(i + 1), v, tau_case=tc, t_case=tt))
         views = [view(v, c) for v, c in zip(self.vs, coords)]
         for f in OPS.op_requires(self.pk, self.modname, case_name, scal, views):
             ctx.hyp(f, pre=True)
@@ -138,13 +143,14 @@ class VariantJob:
 
     def cases(self):
         sc = OPS.scalar_cases(self.pk, self.modname, self.snames, self.prop)
-        ntau = sum(1 for v in self.vs if len(v) >= 3 and v[2] is TemporalTau)
-        tcs = list(itertools.product(("nonneg", "neg"), repeat=ntau))
+        split_t = self.modname in T_SIGN_SPLIT_OPS
+        temps = [v[2] for v in self.vs if len(v) >= 3 and (v[2] is TemporalTau or split_t)]
+        tcs = list(itertools.product(("nonneg", "neg"), repeat=len(temps)))
         for cname, kinds in sc:
             for tc in tcs:
                 label = cname
-                if ntau:
-                    label = (label + ";" if label else "") + "tau:" + ",".join(tc)
+                if temps:
+                    label = (label + ";" if label else "") + ",".join(("tau:" if k is TemporalTau else "t:") + c for k, c in zip(temps, tc))
                 yield label, cname, kinds, tc
 
     def run(self):
@@ -402,6 +408,8 @@ class VariantJob:
         try:
             base = {v: mp().mpf(q.numerator) / q.denominator for v, q in model.items() if q is not None and v not in ctx.vardef}
             env = EnvGet(ctx, base)
+            if not all(f_eval(f, env, tol=mp().mpf(10) ** (-25)) for f in ctx.pre):
+                return None          # the point read back from the solver model is outside the contract's precondition
             return self.refute_at(ctx, env, got, ref, scalar_result, None)
         except Exception:
             return None
